@@ -57,7 +57,8 @@ def run(ctx):
     ctx.check('R1', 'the verdict is computed after the event loop has ended', after, 'Pool.run', 'verdict-before-loop',
               'ok is computed before the event loop finished', where=loc(run_f, oks[0]) if oks else None)
     parts = [norm(v) for v in (lp.test.values if isinstance(lp.test, ast.BoolOp) and isinstance(lp.test.op, ast.And) else [lp.test])]
-    live = any('_get_all_workers_ids()' in p and 'difference(self._closed)' in p for p in parts)
+    from .c07 import denotes_live_workers
+    live = any(denotes_live_workers(ctx, pool, v) for v in (lp.test.values if isinstance(lp.test, ast.BoolOp) and isinstance(lp.test.op, ast.And) else [lp.test]))
     ctx.check('R1', 'the event loop only ends with results pending when no worker is left', live and 'self._pending' in parts, 'Pool.run',
               'loop-condition:' + ' and '.join(parts), 'the event loop can end with pending results while workers are alive: PoolError would be raised with live workers',
               where=loc(run_f, lp))
